@@ -902,3 +902,11 @@ m('C13', 'misfit: stored weights trusted (defect F17)', SIMS,
   "            # Store weights\n            self.data['weights'] = std**-2\n",
   "            # Store weights\n            if 'weights' not in self.data.keys():\n                self.data['weights'] = std**-2\n",
   'C13.N5.weights')
+m('C18', "parser: file_dir 'None' kept as a string (defect F18)", PARSER,
+  "        if simulation[key] == 'None':\n            simulation[key] = None\n", "", 'C18.Q6.examples')
+m('C18', 'run: optional gridding_opts indexed (defect F19)', RUN,
+  "cfg['simulation_options'].get('gridding_opts', {})", "cfg['simulation_options']['gridding_opts']",
+  'C18.Q2.routing')
+m('C18', 'parser: unknown sections accepted (defect F20)', PARSER,
+  "    if unknown:\n        raise TypeError(f\"Unexpected section in config file: {unknown}.\")\n", "",
+  'C18.Q5.unknown')
